@@ -18,7 +18,7 @@ func init() {
 	register(&Property{
 		ID: "C07",
 		Explanation: "Decided: (R1) the system status is read and written only under its mutex; (R2) no call made while a mutex field is held reaches an acquisition of the same field along synchronous call paths " +
-			"(not crossing a Mailbox.Enqueue dispatch) and the module's lock-order graph is acyclic; (R3) Start/Stop move the status only ready→started→stopped, every other state returns the documented error and the caller returns it before any effect; " +
+			"(not crossing a Mailbox.Enqueue dispatch) and the module's lock-order graph is acyclic; (R3) Start/Stop move the status only ready→started→stopped, the read that decides a transition and its store lie in one critical section (no lock operation between them), every other state returns the documented error and the caller returns it before any effect; " +
 			"(R4) every blocking wait synchronously reachable from Stop sits in a select with a timer case; (R5) the stopping path poison-kills the root and cancels the system context, Start spawns one goroutine that waits for context cancellation and calls the stop routine; " +
 			"(R6) the guard closes the stop signal only when it handles the OnKilled that names itself. NOT decided: that actors terminate within the timeout, goroutine quiescence after Stop at run time.",
 		Assumptions: []string{"locks are identified by struct field (instance-insensitive)", "third-party code (go-quartz) does not block Stop: treated by summary"},
@@ -103,6 +103,9 @@ func (p *Program) systemRoles() *sysRoles {
 								out[fld] = true
 							}
 						}
+					}
+					if a := atomicCall(in); a != nil && a.Field != nil && (a.Op == "Store" || a.Op == "CAS" || a.Op == "Swap") && fieldVar(r.T, a.Field.Name()) == a.Field {
+						out[a.Field] = true
 					}
 				}
 			}
@@ -399,11 +402,17 @@ func c07Transitions(p *Program, r *Report) {
 		for _, fn := range withAnon(a.fn) {
 			g := p.ig(fn)
 			var stores []int
+			storeVal := map[int]ssa.Value{}
 			for i, in := range g.Nodes {
 				if st, ok := in.(*ssa.Store); ok {
 					if f, _ := fieldAddr(st.Addr); f == s.Status {
 						stores = append(stores, i)
+						storeVal[i] = st.Val
 					}
+				}
+				if ac := atomicCall(in); ac != nil && ac.Field == s.Status && ac.Op == "Store" && len(ac.Args) > 0 {
+					stores = append(stores, i)
+					storeVal[i] = ac.Args[len(ac.Args)-1]
 				}
 			}
 			if len(stores) == 0 {
@@ -421,8 +430,8 @@ func c07Transitions(p *Program, r *Report) {
 				return m
 			}
 			for _, si := range stores {
-				st := g.Nodes[si].(*ssa.Store)
-				v, _ := constInt(st.Val)
+				st := g.Nodes[si]
+				v, _ := constInt(storeVal[si])
 				var possible []int64
 				for c := int64(0); c <= 2; c++ {
 					if g.Reach(g.entry(), nil, avoidFor(c))[si] {
@@ -430,6 +439,31 @@ func c07Transitions(p *Program, r *Report) {
 					}
 				}
 				ok := v == a.to && len(possible) == 1 && possible[0] == a.from
+				// ... and the read deciding it belongs to the same critical section: no lock operation between that read and the store
+				for _, ef := range facts {
+					if ef.Field != s.Status || ef.Load == nil {
+						continue
+					}
+					li, has := g.Idx[ef.Load]
+					if !has {
+						continue
+					}
+					after := g.ReachAfter(li, nil, nil)
+					if !after[si] {
+						continue
+					}
+					for w, win := range g.Nodes {
+						if _, isCall := win.(*ssa.Call); !isCall || !after[w] {
+							continue
+						}
+						switch calleeQual(callOf(win)) {
+						case "(sync.Mutex).Lock", "(sync.Mutex).Unlock", "(sync.RWMutex).Lock", "(sync.RWMutex).Unlock", "(sync.RWMutex).RLock", "(sync.RWMutex).RUnlock":
+							if g.ReachAfter(w, nil, nil)[si] {
+								ok = false
+							}
+						}
+					}
+				}
 				r.Check(ok, fmt.Sprintf("%s: status←%d", a.name, v), st.Pos(), fmt.Sprintf("the store is reachable only when the status read in the same critical section is %d (reachable for %v): one-way transition", a.from, possible))
 			}
 			// all other states return the documented error
